@@ -249,11 +249,12 @@ def sortStrings (l : List Bytes) : List Bytes := l.foldr insertSorted []
 
 /-! ## session_info text: import -/
 
-/-- strip one pair of double quotes; the Go slice expression `v[1:len(v)-1]` panics on `"` alone -/
+/-- strip one pair of double quotes; a lone `"` is both prefix and suffix but is left alone
+    (`len(attrValue) >= 2`, C13 fix 6 — the slice expression `v[1:len(v)-1]` used to panic on it) -/
 def unquote (v : Bytes) : Except Err Bytes :=
   if v.head? = some 34 ∧ v.getLast? = some 34 then
     (match v with
-     | [_] => .error .panic
+     | [_] => .ok v
      | _ => .ok v.tail.dropLast)
   else .ok v
 
